@@ -2,6 +2,7 @@ import Anndb.Model.Recovery
 import Anndb.Model.RaftLoop
 import Anndb.Proofs.Quorum
 import Anndb.Proofs.TornTail
+import Anndb.Props.C06
 import Anndb.Generated
 /-!
 # C03 — acknowledged writes survive a crash at any instant and restart
@@ -209,6 +210,16 @@ def demo : St :=
   applyAll true 5 (restart s)
 
 example : demo.acked = [1, 2, 3] ∧ demo.applied = [1, 2, 3] ∧ demo.snap = [1, 2] ∧ demo.log = [3] := by decide
+
+/-- **C03 (a replica that crashed catches up without a hole).** The leader builds the appends for a
+follower that was down from size-limited reads of its stored log; each is a non-empty run starting at the
+index asked for (C06's refinement of the read), so the follower's log — and what it applies — has every
+acknowledged entry at its index. -/
+theorem catch_up_reads_have_no_hole (w : Wal.Wal) (h : Wal.WF w) (lo hi maxSize : Nat)
+    (hlo : (Wal.abs w).firstIndex ≤ lo) (hlt : lo < hi) (hhi : hi ≤ (Wal.abs w).lastIndex + 1) :
+    ∃ es w', w.entries lo hi maxSize = .ok (es, w') ∧
+      es <+: (((Wal.abs w).ents.drop (lo - (Wal.abs w).offset)).take (hi - lo)) ∧ es ≠ [] :=
+  C06.limited_read_is_a_run_from_lo w h lo hi maxSize hlo hlt hhi
 
 /-! ## a crash in the middle of an append to the store's value log (D35)
 
